@@ -133,7 +133,7 @@ def main():
                     for c in CHECKS[p]:
                         rc, o = sh("./check %s quick 2>&1 | tail -25" % c, VERIF, env=dict(VERIF_REPO=WT, VERIF_ONLY_FLAVOURS="dbg,rel"), timeout=2400)
                         rec["checks_run"].append(c)
-                        if rc == 1 and "VIOLATION property=" in o:
+                        if ("VIOLATION property=%s" % c) in o:  # (rc is the pipeline's, not the check's)
                             rec["status"] = "detected"
                             rec["detected_by"] = c
                             w = [l for l in o.split("\n") if "witness:" in l]
